@@ -667,6 +667,18 @@ Section MapRun.
   Qed.
 End MapRun.
 
+(* the producers of the requested outputs are always kept: the check "a requested output did not survive" of
+   Pipeline.subpipeline can only fire for a requested name that is no output of the full pipeline at all *)
+Theorem requested_outputs_survive p Ip Sq outs :
+  mapM (node_of p) Sq = Ok outs ->
+  forall o, In o Sq -> is_output p o = true -> is_output (keep p (required p Ip outs)) o = true.
+Proof.
+  intros Hm o Ho Hop. apply is_output_true in Hop as [h Eh]. pose proof (producer_Some _ _ _ Eh) as [Hh Hoh].
+  destruct (mapM_Ok_inv _ _ _ Hm o Ho) as [y [Hy Hn]]. unfold node_of in Hn. rewrite Eh in Hn. inversion Hn; subst y.
+  apply (in_is_output _ h o); [|assumption]. unfold keep. apply filter_In. split; [assumption|].
+  apply mem_str_In. unfold required. apply in_app_iff. now right.
+Qed.
+
 (* ---------- the two former refutation witnesses, now accepted / exact (replayed on the repaired code) ---------- *)
 Definition w_nullary : pipeline :=
   [ mkf (s "const") [s "k"] [] [] [] false;
@@ -797,3 +809,237 @@ Proof.
   split; [assumption|]. intros f Hf. rewrite <- (H2 f Hf).
   apply (subpipeline_needed_exact p (akeys inputs) Sq p' inputs Hwf Es (fun k => conj (fun x => x) (fun x => x)) f Hf).
 Qed.
+
+(* ====================================================================================================
+   Acceptance at the level of Pipeline.map: the run of an accepted sub-pipeline succeeds
+   ==================================================================================================== *)
+Lemma wf_dflt_params p f k : wf_pipeline p -> In f p -> In k (akeys (dflt f)) -> In k (pnames f).
+Proof.
+  unfold wf_pipeline, wf_pipelineb. rewrite !andb_true_iff. intros [[[[H1 _] _] _] _] Hf Hk.
+  rewrite forallb_forall in H1. specialize (H1 f Hf). unfold wf_func in H1. rewrite !andb_true_iff in H1.
+  destruct H1 as [[[_ H1] _] _]. apply subset_str_incl in H1. now apply H1.
+Qed.
+
+Section MapAccept.
+  Variable body : str -> alist -> result str.
+  Variable pick : str -> str -> str.
+  Hypothesis Hbody : forall f a, exists r, body f a = Ok r.
+  Variable p : pipeline.
+  Hypothesis Hwfb : wf_pipeline p.
+  Variable ls : list (list str).
+  Hypothesis Hwf : wf_P p ls.
+  Variable inputs : alist.
+  Variable Sq : list str.
+  Variable p' : pipeline.
+  Hypothesis Hsub : subpipeline p (akeys inputs) (Some Sq) = Ok p'.
+  Variable outs : list str.
+  Hypothesis Hm : mapM (node_of p) Sq = Ok outs.
+  Hypothesis Hp' : p' = map (with_defaults (lost_defaults p (kept_of p (akeys inputs) outs))) (kept_of p (akeys inputs) outs).
+  Hypothesis Houtp' : forall o, In o Sq -> is_output p' o = true.
+  Hypothesis Hroots : forall r, In r (root_arg_names p') ->
+          (In r (akeys (pdefaults p')) /\ In r (akeys (pdefaults p))) \/ In r (akeys inputs).
+
+  Let q := kept_of p (akeys inputs) outs.
+  Let upd := with_defaults (lost_defaults p q).
+
+  Lemma ma_inv f' : In f' p' -> exists g, In g q /\ In g p /\ f' = upd g.
+  Proof. apply (mr_p'_inv p inputs p' outs Hp'). Qed.
+
+  (* a producer inside the sub-pipeline is the producer in the full pipeline *)
+  Lemma ma_producer cur g' : producer p' cur = Some g' -> exists g, In g q /\ g' = upd g /\ producer p cur = Some g.
+  Proof.
+    intros H. rewrite Hp', producer_upd in H. fold q in H. destruct (producer q cur) as [g|] eqn:Eg; [|discriminate].
+    inversion H; subst g'. exists g. pose proof (producer_Some _ _ _ Eg) as [Hg _]. repeat split; auto.
+    apply (producer_q_p p ls Hwf (akeys inputs) outs cur g Eg).
+  Qed.
+
+  (* the edges of the function graph of the sub-pipeline *)
+  Lemma ma_edge u v : In (u, v) (edges (fgraph p')) ->
+    exists f g cur, In f q /\ In g q /\ v = fid f /\ u = fid g /\ In cur (pnames f) /\ ahas (bound f) cur = false
+                    /\ producer p cur = Some g.
+  Proof.
+    unfold fgraph. cbn [edges]. intros H. apply in_flat_map in H as [f' [Hf' H]]. apply in_map_iff in H as [n [E Hn]].
+    injection E as E1 E2; subst u v. rewrite dedup_In in Hn. apply filter_In in Hn as [Hn Ho].
+    unfold fpreds in Hn. apply in_flat_map in Hn as [cur [Hcur Hn]]. unfold dep_node in Hn.
+    destruct (ahas (bound f') cur) eqn:Eb; [contradiction|]. destruct (ma_inv f' Hf') as [f [Hfq [Hfp ->]]].
+    destruct (producer p' cur) as [g'|] eqn:Eg.
+    - destruct Hn as [<-|[]]. destruct (ma_producer cur g' Eg) as [g [Hgq [-> Egp]]]. exists f, g, cur. repeat split; auto.
+    - destruct Hn as [<-|[]]. apply is_output_false in Eg. congruence.
+  Qed.
+
+  Lemma ma_edge_intro f g cur : In f q -> In cur (pnames f) -> ahas (bound f) cur = false -> producer q cur = Some g ->
+    In (fid g, fid f) (edges (fgraph p')).
+  Proof.
+    intros Hf Hcur Hb Eg. unfold fgraph. cbn [edges]. apply in_flat_map. exists (upd f). split; [now apply (mr_p'_intro p inputs p' outs Hp')|].
+    apply in_map_iff. exists (fid g). split; [reflexivity|]. rewrite dedup_In. apply filter_In.
+    assert (Egp' : producer p' cur = Some (upd g)) by (rewrite Hp', producer_upd; fold q; now rewrite Eg).
+    split.
+    - unfold fpreds. apply in_flat_map. exists cur. split; [exact Hcur|]. unfold dep_node.
+      change (bound (upd f)) with (bound f). rewrite Hb, Egp'. now left.
+    - pose proof (producer_Some _ _ _ Egp') as [Hg' _]. apply (in_is_output p' (upd g)); [assumption|].
+      change (In (fid g) (Pipe.outs g)). pose proof (producer_Some _ _ _ Eg) as [Hgq _].
+      apply fid_in_outs. apply (wff_outs_ne _ (wf_funcs _ _ Hwf g (q_in_p p (akeys inputs) outs g Hgq))).
+  Qed.
+
+  Lemma ma_topo : exists layers, topo_generations (fgraph p') = Some layers.
+  Proof.
+    apply (topo_generations_complete (fgraph p') (rank_of ls)). intros u v _ _ He.
+    destruct (ma_edge u v He) as [f [g [cur [Hf [Hg [-> [-> [Hcur [Hb Eg]]]]]]]]].
+    apply (wf_rank_edge _ _ Hwf f g cur); auto. now apply (q_in_p p (akeys inputs) outs).
+  Qed.
+
+  Lemma node_func_fid_p' f' : In f' p' -> node_func p' (fid f') = Some f'.
+  Proof.
+    intros Hf. destruct (node_func p' (fid f')) as [g|] eqn:Eg.
+    - apply node_func_Some in Eg as [Hg Hfid]. f_equal. now apply (fid_inj_p' p ls Hwf inputs p' outs Hp').
+    - unfold node_func in Eg. eapply find_none in Eg; eauto. cbn in Eg. now rewrite str_eqb_refl in Eg.
+  Qed.
+
+  Lemma pdefault_Some_of_key (d : pipeline) k : In k (akeys (pdefaults d)) -> exists v, pdefault d k = Some v.
+  Proof.
+    intros H. unfold pdefault. destruct (aget (rev (pdefaults d)) k) eqn:E; [eauto|]. apply aget_None_iff in E.
+    exfalso. apply E. unfold akeys in *. rewrite map_rev. now apply -> in_rev.
+  Qed.
+
+  (* one step of the run succeeds when the producers of the function's arguments have run *)
+  Lemma ma_step done acc n : MInv body pick p inputs p' acc done ->
+    (forall f, node_func p' n = Some f -> forall cur g, In cur (pnames f) -> aget (bound f) cur = None ->
+               aget inputs cur = None -> producer p' cur = Some g -> In (fid g) done) ->
+    exists acc', map_step body pick p' inputs (Ok acc) n = Ok acc'.
+  Proof.
+    intros HI Hdone. destruct acc as [store lg]. unfold map_step. cbn [bind].
+    destruct (node_func p' n) as [f|] eqn:En; [|eauto]. pose proof (node_func_Some _ _ _ En) as [Hf Hfid].
+    assert (Ha : exists args, map_args p' inputs store f = Ok args).
+    { unfold map_args. apply mapM_total. intros [cur orig] Hin.
+      assert (Hcur : In cur (pnames f)) by (apply in_map_iff; now exists (cur, orig)).
+      destruct (aget (bound f) cur) eqn:Eb; [cbn; eauto|]. destruct (aget inputs cur) eqn:Ek; [cbn; eauto|].
+      destruct (is_output p' cur) eqn:Eo.
+      - apply is_output_true in Eo as [g Eg]. pose proof (Hdone f eq_refl cur g Hcur Eb Ek Eg) as Hd.
+        pose proof (producer_Some _ _ _ Eg) as [Hg Hco].
+        assert (Hgf : In g (funcs_of p' done)).
+        { unfold funcs_of. apply in_flat_map. exists (fid g). split; [assumption|]. rewrite (node_func_fid_p' g Hg). now left. }
+        pose proof (mi_outs _ _ _ _ _ _ _ HI g cur Hgf Hco) as Hh. cbn [fst] in Hh. apply ahas_true_iff in Hh as [v Hv].
+        rewrite Hv. cbn. eauto.
+      - assert (Hr : In cur (root_arg_names p')).
+        { unfold root_arg_names. apply dedup_In, in_flat_map. exists f. split; [assumption|]. apply filter_In.
+          split; [assumption|]. apply ahas_false_iff in Eb. now rewrite Eb, Eo. }
+        destruct (Hroots cur Hr) as [[Hd _]|Hi].
+        + destruct (pdefault_Some_of_key p' cur Hd) as [v Hv]. rewrite Hv. cbn. eauto.
+        + apply aget_None_iff in Ek. contradiction. }
+    destruct Ha as [args Ha]. rewrite Ha. cbn [bind]. destruct (Hbody (fname f) args) as [r Hr]. rewrite Hr. cbn [bind]. eauto.
+  Qed.
+
+  Lemma ma_fold : forall l done acc, MInv body pick p inputs p' acc done ->
+    (forall l1 n l2 f, l = l1 ++ n :: l2 -> node_func p' n = Some f -> forall cur g, In cur (pnames f) ->
+        aget (bound f) cur = None -> aget inputs cur = None -> producer p' cur = Some g -> In (fid g) (done ++ l1)) ->
+    exists acc', fold_left (map_step body pick p' inputs) l (Ok acc) = Ok acc'.
+  Proof.
+    induction l as [|n l IH]; intros done acc HI Hpos; [cbn; eauto|]. cbn [fold_left].
+    destruct (ma_step done acc n HI) as [acc1 H1].
+    { intros f En cur g Hcur Eb Ek Eg. pose proof (Hpos [] n l f eq_refl En cur g Hcur Eb Ek Eg) as H. now rewrite app_nil_r in H. }
+    rewrite H1. apply (IH (done ++ [n]) acc1).
+    - apply (map_fold_spec body pick p ls Hwf inputs Sq p' Hsub outs Hp' Houtp' Hroots [n] done acc acc1 HI). cbn. exact H1.
+    - intros l1 m l2 f E En cur g Hcur Eb Ek Eg. rewrite <- app_assoc. cbn [app].
+      apply (Hpos (n :: l1) m l2 f (f_equal (cons n) E) En cur g Hcur Eb Ek Eg).
+  Qed.
+
+  Theorem ma_run_generations : exists store lg, run_generations body pick p' inputs = Ok (store, lg).
+  Proof.
+    unfold run_generations. destruct ma_topo as [layers Et]. rewrite Et.
+    assert (HI0 : MInv body pick p inputs p' ([], []) []).
+    { constructor; cbn; [intros o v E; discriminate|intros f o []|reflexivity]. }
+    destruct (ma_fold (concat layers) [] ([], []) HI0) as [[store lg] H]; [|eauto].
+    intros l1 n l2 f E En cur g' Hcur Eb Ek Eg. cbn [app].
+    pose proof (node_func_Some _ _ _ En) as [Hf Hfid]. destruct (ma_inv f Hf) as [f0 [Hf0q [Hf0p ->]]].
+    destruct (ma_producer cur g' Eg) as [g [Hgq [-> Egp]]].
+    assert (Egq : producer q cur = Some g).
+    { rewrite Hp', producer_upd in Eg. fold q in Eg. destruct (producer q cur) as [g1|] eqn:E1; [|discriminate].
+      pose proof (producer_q_p p ls Hwf (akeys inputs) outs cur g1 E1). congruence. }
+    apply ahas_false_iff in Eb.
+    pose proof (ma_edge_intro f0 g cur Hf0q Hcur Eb Egq) as He.
+    unfold topo_generations in Et. destruct (kahn_sound _ _ _ _ Et) as [_ [Hcov Hord]].
+    assert (Hnf : In (fid f0) (nodes (fgraph p'))) by (cbn; change (fid f0) with (fid (upd f0)); now apply in_map).
+    assert (Hng : In (fid g) (nodes (fgraph p'))).
+    { cbn. change (fid g) with (fid (upd g)). apply in_map. now apply (mr_p'_intro p inputs p' outs Hp'). }
+    assert (Hlt : rank_of layers (fid g) < rank_of layers (fid f0)).
+    { apply Hord; auto. unfold preds. apply in_map_iff. exists (fid g, fid f0). split; [reflexivity|].
+      apply filter_In. split; [assumption|]. cbn. apply str_eqb_refl. }
+    apply (rank_lt_before layers (fid g) n l1 l2); auto.
+    - destruct (Hcov (fid g) Hng) as [l [Hl1 Hl2]]. apply in_concat. eauto.
+    - change (fid (upd f0)) with (fid f0) in Hfid. now rewrite <- Hfid.
+  Qed.
+
+  (* _validate_complete_inputs passes when every provided name is a root argument of the sub-pipeline *)
+  Lemma ma_validate : (forall k, In k (akeys inputs) -> In k (root_arg_names p')) -> validate_complete_inputs p' inputs = Ok tt.
+  Proof.
+    intros Hin. unfold validate_complete_inputs.
+    assert (E1 : subset_str (root_arg_names p') (akeys inputs ++ akeys (pdefaults p')) = true).
+    { apply subset_str_incl. intros r Hr. apply in_app_iff. destruct (Hroots r Hr) as [[H _]|H]; auto. }
+    assert (E2 : subset_str (akeys inputs ++ akeys (pdefaults p')) (root_arg_names p') = true).
+    { apply subset_str_incl. intros k Hk. apply in_app_iff in Hk as [Hk|Hk]; [now apply Hin|].
+      unfold akeys in Hk. apply in_map_iff in Hk as [[k0 v] [E Hk]]. cbn in E. subst k0.
+      unfold pdefaults in Hk. apply in_flat_map in Hk as [f' [Hf' Hk]]. apply filter_In in Hk as [Hk Hc]. cbn [fst] in Hc.
+      destruct (ma_inv f' Hf') as [f [Hfq [Hfp ->]]].
+      assert (Hpn : In k (pnames f)).
+      { unfold upd, with_defaults in Hk. cbn in Hk. apply in_app_iff in Hk as [Hk|Hk].
+        - apply (wf_dflt_params p f k Hwfb Hfp). unfold akeys. apply in_map_iff. now exists (k, v).
+        - apply filter_In in Hk as [_ Hk]. cbn [fst] in Hk. apply andb_true_iff in Hk as [Hk _]. now apply mem_str_In. }
+      unfold root_arg_names. apply dedup_In, in_flat_map. exists (upd f). split; [assumption|]. apply filter_In.
+      split; [exact Hpn|exact Hc]. }
+    now rewrite E1, E2.
+  Qed.
+End MapAccept.
+
+(* map(inputs, output_names=S): every computable request outside the two known-finding regions is accepted and
+   runs to completion (with total user functions) *)
+Theorem map_computable_accepted body pick p inputs Sq auto :
+  wf_pipeline p -> (forall f a, exists r, body f a = Ok r) ->
+  (forall o, In o Sq -> is_output p o = true /\ sufficient p inputs o) ->
+  dead_defaults_agree p inputs Sq ->
+  (forall k, In k (akeys inputs) ->
+     exists o f, In o Sq /\ In f (needed_top p inputs o) /\ In k (pnames f) /\ aget (bound f) k = None) ->
+  (forall k, In k (akeys inputs) -> forall o f, In o Sq -> In f (needed_top p inputs o) -> ~ In k (outs f)) ->
+  exists store lg, map_run body pick p inputs (Some Sq) auto = Ok (store, lg).
+Proof.
+  intros Hwfb Hbody HS HD Hread Hnot. destruct (wf_pipeline_elim p Hwfb) as [ls Hw].
+  set (Hk := fun k : str => conj (fun x : In k (akeys inputs) => x) (fun x : In k (akeys inputs) => x)).
+  assert (HI : forall k, In k (akeys inputs) -> is_output p k = true \/ In k (root_arg_names p)).
+  { intros k Hkin. destruct (Hread k Hkin) as [o [f [Ho [Hf [Hkp Hb]]]]].
+    destruct (is_output p k) eqn:Eo; [now left|right]. unfold root_arg_names. apply dedup_In, in_flat_map. exists f.
+    split; [apply (needed_in_p p inputs (S (length p)) o f Hf)|]. apply filter_In. split; [assumption|].
+    apply ahas_false_iff in Hb. now rewrite Hb, Eo. }
+  destruct (mapM_total (node_of p) Sq) as [outs Hm].
+  { intros o Ho. apply (node_of_total p). left. now apply HS. }
+  pose proof (acc_accepted p ls Hw (akeys inputs) Sq inputs Hk HI HS HD outs Hm) as Hsub.
+  set (q := kept_of p (akeys inputs) outs) in *. set (p' := map (with_defaults (lost_defaults p q)) q) in *.
+  assert (Hp' : p' = map (with_defaults (lost_defaults p (kept_of p (akeys inputs) outs))) (kept_of p (akeys inputs) outs)) by reflexivity.
+  pose proof (acc_outputs p ls Hw (akeys inputs) Sq inputs Hk HS outs Hm) as Houtp'. fold q in Houtp'. fold p' in Houtp'.
+  pose proof (acc_roots p ls Hw (akeys inputs) Sq inputs Hk HS outs Hm) as Hroots. fold q in Hroots. fold p' in Hroots.
+  unfold map_run. replace (auto || true) with true by now destruct auto. rewrite Hsub. cbn [bind].
+  assert (Hin : forall k, In k (akeys inputs) -> In k (root_arg_names p')).
+  { intros k Hkin. destruct (Hread k Hkin) as [o [f [Ho [Hf [Hkp Hb]]]]].
+    assert (Hfp : In f p) by apply (needed_in_p p inputs (S (length p)) o f Hf).
+    assert (Hfq : In f q) by (apply (acc_kept_iff p ls Hw (akeys inputs) Sq inputs Hk HS outs Hm f Hfp); eauto).
+    unfold root_arg_names. apply dedup_In, in_flat_map. exists (with_defaults (lost_defaults p q) f).
+    split; [unfold p'; now apply in_map|]. apply filter_In. split; [exact Hkp|].
+    change (bound (with_defaults (lost_defaults p q) f)) with (bound f). apply ahas_false_iff in Hb. rewrite Hb. cbn [negb andb].
+    apply negb_true_iff. rewrite (is_output_p'_q p (akeys inputs) p' outs Hp'). fold q.
+    destruct (is_output q k) eqn:Eo; [|reflexivity]. exfalso. apply is_output_true in Eo as [g Eg].
+    pose proof (producer_Some _ _ _ Eg) as [Hgq Hkg]. pose proof (q_in_p p (akeys inputs) outs g Hgq) as Hgp.
+    apply (acc_kept_iff p ls Hw (akeys inputs) Sq inputs Hk HS outs Hm g Hgp) in Hgq as [o' [Ho' Hg']].
+    exact (Hnot k Hkin o' g Ho' Hg' Hkg). }
+  rewrite (ma_validate p Hwfb inputs p' outs Hp' Hroots Hin). cbn [bind].
+  exact (ma_run_generations body pick Hbody p ls Hw inputs Sq p' Hsub outs Hp' Houtp' Hroots).
+Qed.
+
+(* the guard on provided outputs of needed functions cannot be dropped: f(x) -> (a, c); h(a, c) -> d;
+   inputs {x, a}; S = {d}: computable, the sub-pipeline is built, map refuses the provided a *)
+Definition w_k2 : pipeline :=
+  [ mkf (s "f") [s "a"; s "c"] [(s "x", s "x")] [] [] false;
+    mkf (s "h") [s "d"] [(s "a", s "a"); (s "c", s "c")] [] [] false ].
+Lemma k2_witness :
+  wf_pipelineb w_k2 = true /\ computableb w_k2 [s "x"; s "a"] [s "d"] = true
+  /\ all_readb w_k2 [s "x"; s "a"] [s "d"] = true
+  /\ subpipeline w_k2 [s "x"; s "a"] (Some [s "d"]) = Ok w_k2
+  /\ map_run Sym.body Sym.pick w_k2 [(s "x", s "1"); (s "a", s "A")] (Some [s "d"]) false = Err ValueError.
+Proof. vm_compute. auto 10. Qed.
